@@ -934,8 +934,13 @@ def _constfn(p):
                 np_out, np_proj = "raise", [P.project_exception(exc)]
             if np_out == "raise":
                 return Extra(None, np=np_proj, np_out=np_out)       # numpy rejects the arguments: nothing to compare
-            mod = numpy if sp == "numpy" else numpoly
-            out = getattr(mod, name)(*polys, **kw)
+            if sp == "method":
+                # the method of the first operand (max / min for amax / amin, round for around)
+                mname = {"amax": "max", "amin": "min", "around": "round"}.get(name, name)
+                out = getattr(polys[0], mname)(*polys[1:], **kw)
+            else:
+                mod = numpy if sp == "numpy" else numpoly
+                out = getattr(mod, name)(*polys, **kw)
         return Extra(Multi(_flatten_results(out)), np=np_proj, np_out=np_out)
     return run
 
